@@ -53,7 +53,7 @@ for m in sorted(glob.glob('/verif/seeded/*/meta.json')):
     rows.append(f"| {x['id']} | {x.get('property')} | {what} | {res} |")
 sec = f'''### 0.4 Seeded changes (independent agents, property text only) and what the checks say
 
-Nine batches, {n} changes, each written by a fresh agent that saw only the property text and a scratch worktree; each confirmed by
+Twelve batches, {n} changes, each written by a fresh agent that saw only the property text and a scratch worktree; each confirmed by
 `tools/seedverify.sh` (builds, the package's existing tests pass with the change, the agent's demonstration fails with it and passes
 without it) and run through the claimed check with `tools/seedcheck.sh` (`VERIF_REPO=<scratch worktree>`). "⇒" marks a change the
 check missed or could only report as no-failing-input-found on the first run, and what the strengthened check says now.
@@ -61,6 +61,12 @@ check missed or could only report as no-failing-input-found on the first run, an
 `recheck_current_tree` in its meta.json): of the first 56, 50 are caught with a concrete replay, five patches no longer apply
 (the code they change was rewritten by later `fix:` commits) and one (C04a) has become harmless — since fix ab1f47b no live
 session is ever in state Closed, and the agent's own demonstration passes with the change applied.
+Batches 10-12 (56 changes, aimed at files no earlier change had touched) were taken in with `tools/seedintake.sh`: 42 were caught
+at intake, 14 were missed and went to the builders of their components; the misses fall into three classes that a read-only
+reviewer then enumerated over the whole anchored code (`reviews/r-gaps-report.md`): methods that are NOT one critical section
+(TerminateSession / AssignAddress / allocateLocal / cleanupExpiredLeases windows), stored or returned pointers (state.Store),
+and installs that fail half-way (QoS egress/ingress). The review's candidates that reproduced on the real code became fixes
+(9d53e2c AssignAddress, e054093 IPCP ack without address) or known findings (KF-store-alias ...); see §0.3.
 (Regenerate this table and §0.3 with `tools/mkdesign.py`.)
 
 | Seeded | Property | Change | Result |
@@ -75,7 +81,7 @@ REFINE = {
  'C04': 'pppoesrv: `monitor_silent_on_model`; pppauth: monitor silent on every model history (Spec.C04Auth)',
  'C05': 'bitmap: `bitmap_refines_poolspec`; pppoesrv: `monitor_silent_on_model`',
  'C10': '`monitor_silent_on_model`',
- 'C16': 'pppoesrv: `monitor_silent_on_model` (+ timed layer `timed_projects`); teardown: `per_session_clauses_silent_on_model` (not-terminated clauses: runs only); submgr, dhcpterm: runs only',
+ 'C16': 'pppoesrv: `monitor_silent_on_model` (+ timed layer `timed_projects`); teardown: `per_session_clauses_silent_on_model` (not-terminated clauses: runs only); dhcpterm: `Spec.C16DhcpMon.monitor_silent_on_model` (all clauses, histories with atomic establishment); submgr: runs only',
  'C19': 'over-admit monitor proved sound (`over_admit_monitor_sound`)',
 }
 TRANSL = {'C04': 'extractguards', 'C06': 'extractlayout', 'C11': 'extractfsm (+ reference tables for the search)', 'C16': 'extractpaths'}
